@@ -110,7 +110,7 @@ class RedisStorage(QueueStorage):
 
     def set_recipients_delivered(self, id, rcpt_indexes):
         current = self.redis.hget(self._get_key(id), 'delivered_indexes')
-        new_indexes = sorted(rcpt_indexes)
+        new_indexes = sorted(rcpt_indexes, reverse=True)
         if current:
             new_indexes = pickle.loads(current) + new_indexes
         self.redis.hset(self._get_key(id), 'delivered_indexes',
